@@ -349,6 +349,11 @@ func visibleRunes(rs []rune) []rune {
 
 // ---------------------------------------------------------------- running the real code
 
+// c20Init: the package state of linetrim.go right after its init() ran in this process, before any hook touched it.
+// The harness' stdout is a file or a pipe, never a terminal, so this is the "not a TTY" branch of init()
+// (trimming off, 24 x 80); the TTY branch is reached by extra/C20.py through a pseudo-terminal.
+var c20Init = fmt.Sprintf("ok %s %d %d", b01(multiterm.AutoTrim), multiterm.TermRows(), multiterm.TermCols())
+
 func c20Run(f []string) string {
 	switch f[0] {
 	case "vt":
@@ -359,6 +364,8 @@ func c20Run(f []string) string {
 		t.row = row0
 		t.feed(UnHex(f[5]))
 		return fmt.Sprintf("ok rows=%s row=%d col=%d vis=%s", t.rowsOut(height), t.row, t.col, b01(t.vis))
+	case "init":
+		return c20Init
 	case "size":
 		rows, _ := strconv.Atoi(f[1])
 		cols, _ := strconv.Atoi(f[2])
@@ -700,7 +707,7 @@ func c20Gen(r *Rand, tier string) []string {
 	if tier == "thorough" {
 		n = 120000
 	}
-	var out []string
+	out := []string{"init"}
 	widths := []int{1, 2, 3, 4, 5, 8, 10, 20, 40, 80}
 	for i := 0; i < n; i++ {
 		width := Pick(r, widths)
@@ -820,7 +827,7 @@ func c20Stats(cases []string) map[string]int {
 				st["vt.invalidUtf8"]++
 			}
 			continue
-		case "size", "termspec":
+		case "size", "termspec", "init":
 			continue
 		case "vtermf":
 			hs = f[1]
